@@ -37,8 +37,8 @@ Req(id, v, o) == [id |-> id, schema |-> G!Schemas[id], v |-> v, mt |-> "applicat
 QuickPartners == {Req("B1", Obj(<<"b">>, <<Str(<<"s">>)>>), Opt(FALSE, FALSE, "none", "none")),
                   Req("B5", Obj(<<"k">>, <<Str(<<"q">>)>>), Opt(FALSE, TRUE, "pass_read", "absent"))}
 Partners == IF Tier = "quick" THEN QuickPartners
-            ELSE QuickPartners \cup {Req("B2", Obj(<<>>, <<>>), Opt(FALSE, FALSE, "none", "absent")),
-                                     Req("B1", Obj(<<>>, <<>>), Opt(TRUE, FALSE, "none", "mixed2"))}
+            ELSE {Req("B1", Obj(<<"b">>, <<Str(<<"s">>)>>), Opt(FALSE, FALSE, "none", "absent")),
+                  Req("B2", Obj(<<>>, <<>>), Opt(FALSE, TRUE, "pass_read", "mixed2"))}
 
 S(op, r) == [op |-> op, r |-> r]
 Sym == {S(op, r) : op \in {"V", "R"}, r \in 1..2}
@@ -48,7 +48,7 @@ QuickSteps == { <<S("V", 1), S("V", 2)>>,                 \* B is validated befo
                 <<S("V", 1), S("V", 2), S("V", 1)>>,
                 <<S("V", 1), S("R", 1), S("V", 2)>>,      \* read, then another request, then (final) read again through the rewind
                 <<S("R", 1), S("V", 1), S("V", 2)>> }     \* validated after a rewind
-AllSteps == {<<a, b>> : a \in Sym1, b \in Sym} \cup {<<a, b, c>> : a \in Sym1, b \in Sym, c \in Sym}
+AllSteps == {<<a, b>> : a \in Sym1, b \in Sym} \cup {<<S("V", 1), b, c>> : b \in Sym, c \in Sym}
 Steps == IF Tier = "quick" THEN QuickSteps ELSE AllSteps
 Final == <<S("R", 1), S("R", 2)>>
 
